@@ -439,7 +439,7 @@ def run_modes_rb(sc, modes, rids=None, qids=None, it=1, do_readback=True):
 def gen_degenerate(rng: random.Random) -> Scenario:
     """well-formed but degenerate inputs (C07)"""
     refs = []
-    kind = rng.choice(["mixed", "mixed", "tiny_refs", "all_unalignable", "dups", "unlabelled_tail"])
+    kind = rng.choice(["mixed", "mixed", "tiny_refs", "all_unalignable", "dups", "unlabelled_tail", "self_copy"])
     nref = rng.randrange(1, 4)
     for i in range(nref):
         c = rng.random()
@@ -464,7 +464,12 @@ def gen_degenerate(rng: random.Random) -> Scenario:
         c = rng.randrange(8)
         if kind == "all_unalignable":
             c = rng.choice([0, 1, 2, 4])
-        if c == 0:
+        if kind == "self_copy" and rng.random() < 0.7:
+            # a molecule that IS a whole reference contig (self-alignment), or all but its last label(s): the query
+            # spans as many correlation bins as the labelled part of the contig, so the correlation has 1-3 lags
+            Rr = rng.choice(refs)[2]
+            Q = list(Rr[:len(Rr) - rng.choice([0, 0, 0, 1])]) if len(Rr) > 2 else list(Rr)
+        elif c == 0:
             Q = [0]
         elif c == 1:
             Q = [0, rng.randrange(1, 30000)]
@@ -484,6 +489,10 @@ def gen_degenerate(rng: random.Random) -> Scenario:
         if rng.random() < 0.4:
             Q = gens.mirror(Q) if len(Q) > 1 else Q
         off = rng.choice([0, rng.randrange(1, 20000)])
+        if kind == "self_copy":
+            off = rng.choice([0, 0, rng.randrange(0, 1400)])
+            queries.append((qi, Q[-1] + off + 1, [q + off for q in Q]))
+            continue
         queries.append((qi, Q[-1] + off + 1 + rng.randrange(0, 3000), [q + off for q in Q]))
     extra = {}
     if rng.random() < 0.6:
